@@ -2,6 +2,7 @@
 # tools/repo_commit.sh "<message>": commit the working-tree change of /repo only if the pinned suite still passes
 cd /repo || exit 2
 out=$(/venv/bin/python -m pytest -q -p no:cacheprovider tests 2>&1 | tail -1)
+rm -f /repo/cbi.log
 echo "$out"
 case "$out" in
   "145 passed"*) git commit -qam "$1" && git log --oneline | head -1 ;;
